@@ -27,6 +27,14 @@ func main() {
 		checks.CheckC02(*tier)
 	case "C03":
 		checks.CheckC03(*tier)
+	case "C04":
+		checks.CheckC04(*tier)
+	case "C09":
+		checks.CheckC09(*tier)
+	case "C10":
+		checks.CheckC10(*tier)
+	case "C12":
+		checks.CheckC12(*tier)
 	case "diag":
 		checks.Diag()
 	case "smoke":
